@@ -47,6 +47,7 @@ class Recorder(object):
         self.seq = 0
         self.fault = fault or {}
         self.batch_stmts = 0      # schema/data statements seen so far
+        self.all_stmts = 0        # statements of any kind seen inside evolve()
         self.in_evolve = False
         self.fired = None
 
@@ -60,10 +61,22 @@ class Recorder(object):
     def wrapper(self, alias):
         def execute_wrapper(execute, sql, params, many, context):
             kind = classify(sql)
+            if self.in_evolve:
+                self.all_stmts += 1
+                if (self.fault.get('scope') == 'all' and self.fired is None and
+                        self.fault.get('at') == self.all_stmts):
+                    self.fired = {'index': self.all_stmts, 'sql': sql,
+                                  'params': _plain(params), 'kind': kind}
+                    self.emit('stmt_fail', db=alias, kind=kind,
+                              index=self.all_stmts, sql=sql[:300])
+                    from django.db.utils import OperationalError
+                    raise OperationalError('injected fault at statement %d (any kind)'
+                                           % self.all_stmts)
             if kind in ('ddl', 'dml', 'vacuum', 'other'):
                 self.batch_stmts += 1
                 idx = self.batch_stmts
                 if (self.fault.get('at') == idx and self.in_evolve and
+                        self.fault.get('scope', 'batch') == 'batch' and
                         self.fired is None):
                     self.fired = {'index': idx, 'sql': sql,
                                   'params': _plain(params)}
@@ -378,6 +391,7 @@ def main():
     result['events'] = rec.events
     result['fault_fired'] = rec.fired
     result['batch_statements'] = rec.batch_stmts
+    result['all_statements'] = rec.all_stmts
     result['cmd_stdout'] = stdout.getvalue()
     result['cmd_stderr'] = stderr.getvalue()
     if mgmt is not None:
